@@ -166,13 +166,15 @@ Definition dframe (f : aframe) (key hasA : bool) : D.frame_info :=
   D.mkfi (Some (af_bs f)) (af_alph f) (af_w f) (af_h f) (af_x f) (af_y f) (af_dur f) key hasA
          (if negb ((af_fl f / 2) mod 2 =? 0) then 1 else 0) (if negb (af_fl f mod 2 =? 0) then 1 else 0).
 
-Lemma d_parse_anmf cw ch f d :
-  af_ok cw ch f -> cw * ch < MaxImageArea -> 1 <= cw -> 1 <= ch -> D.len (D.d_frames d) < 10000 ->
+(** parseANMF parses the whole frame first and applies the frame-count limit last *)
+Lemma d_parse_anmf_gen cw ch f d :
+  af_ok cw ch f -> cw * ch < MaxImageArea -> 1 <= cw -> 1 <= ch ->
   exists hasA,
     D.parse_anmf d (af_payload f) =
-    Ok (D.set_frames d (D.d_frames d ++ [dframe f (D.len (D.d_frames d) =? 0) hasA])).
+    if D.len (D.d_frames d) >=? D.maxFrames then Err D.E_toomany
+    else Ok (D.set_frames d (D.d_frames d ++ [dframe f (D.len (D.d_frames d) =? 0) hasA])).
 Proof.
-  intros [Hl Hb Hfl Hid Halph [a Hd] [Hinx Hiny] [Hbs Hsbs] Hsal] Harea Hcw Hch Hnf.
+  intros [Hl Hb Hfl Hid Halph [a Hd] [Hinx Hiny] [Hbs Hsbs] Hsal] Harea Hcw Hch.
   assert (HhasA : exists b, (if 0 <? D.olen (af_alph f) then Ok true
                              else if 0 <? D.len (af_bs f) then D.frame_data_has_alpha (af_bs f) else Ok false) = Ok b).
   { destruct (0 <? D.olen (af_alph f)); [eauto|]. destruct (0 <? D.len (af_bs f)); [|eauto].
@@ -225,8 +227,17 @@ Proof.
       destruct (length (chunk (af_id f) (af_bs f) ++ [])) as [|fu]; [lia|].
       cbn [D.anmf_loop]. reflexivity. }
   rewrite Hloop. cbn [bind]. change (@D.len Z) with (@len Z) in HhasA. rewrite HhasA. cbn [bind].
-  unfold D.maxFrames. destruct (Z.geb_spec (D.len (D.d_frames d)) 10000); [lia|].
   unfold dframe. reflexivity.
+Qed.
+
+Lemma d_parse_anmf cw ch f d :
+  af_ok cw ch f -> cw * ch < MaxImageArea -> 1 <= cw -> 1 <= ch -> D.len (D.d_frames d) < 10000 ->
+  exists hasA,
+    D.parse_anmf d (af_payload f) =
+    Ok (D.set_frames d (D.d_frames d ++ [dframe f (D.len (D.d_frames d) =? 0) hasA])).
+Proof.
+  intros Hf Harea Hcw Hch Hnf. destruct (d_parse_anmf_gen cw ch f d Hf Harea Hcw Hch) as [hasA E].
+  exists hasA. rewrite E. unfold D.maxFrames. destruct (Z.geb_spec (D.len (D.d_frames d)) 10000); [lia|reflexivity].
 Qed.
 
 (** ** The run of ANMF chunks, both loops *)
@@ -842,9 +853,21 @@ Definition views_agree_anim_statement : Prop :=
       fHasAnim (pFeat r) = true /\ D.ft_anim (D.d_feat d) = true /\
       fLoopCount (pFeat r) = D.d_loop d.
 
-Theorem views_agree_anim : views_agree_anim_statement.
+(** every well-formed animated file within the size cap has the shape of [anim_file] *)
+Lemma g_anim_decompose file :
+  RiffGrammar.wf file = true -> g_is_anim file = true -> len file <= MaxMetadataSize ->
+  exists flags cw ch icc b0 b1 b2 b3 b4 b5 fs exif xmp,
+    file = anim_file flags cw ch icc b0 b1 b2 b3 b4 b5 fs exif xmp /\
+    0 <= flags < 64 /\ Z.land flags 4294967233 = 0 /\ Z.testbit flags 1 = true /\
+    Z.testbit flags 5 = is_some icc /\ 1 <= cw <= 16777216 /\ 1 <= ch <= 16777216 /\
+    Forall (af_ok cw ch) fs /\ fs <> [] /\
+    (forall x, icc = Some x -> len x <= 104857600) /\ (forall x, exif = Some x -> len x <= 104857600) /\
+    (forall x, xmp = Some x -> len x <= 104857600) /\
+    4 + len (anim_body flags cw ch icc b0 b1 b2 b3 b4 b5 fs exif xmp) <= 4294967286 /\
+    bytes_ok (anim_tail exif xmp) /\
+    g_canvas_area file = cw * ch /\ anmf_count file = len fs.
 Proof.
-  intros fx file Hg Han Hlen Harea Hcount.
+  intros Hg Han Hlen.
   destruct tag_consts as (_ & _ & _ & _ & TX & _ & TAN & _ & TI & TE & TM).
   destruct fourcc_ranges as (RX & RI & _ & RE & RM & _).
   destruct file as [|r0 [|r1 [|r2 [|r3 [|s0 [|s1 [|s2 [|s3 [|w0 [|w1 [|w2 [|w3 body]]]]]]]]]]]]; try discriminate.
@@ -964,8 +987,9 @@ Proof.
   { apply (Hcap FourCCXMP xmp [] (optl FourCCICCP icc ++ (FourCCANIM, [B0'; B1'; B2'; B3'; B4'; B5']) :: map mk_anmf fs ++ optl FourCCEXIF exif)).
     rewrite app_nil_r. rewrite <- !app_assoc. cbn [app]. rewrite <- app_assoc. exact Hpl'. }
   (* frame count *)
-  assert (Hcnt : len fs <= MaxFrames).
-  { unfold anmf_count in Hcount.
+  assert (Hcnt : anmf_count ([82; 73; 70; 70; s0; s1; s2; s3; 87; 69; 66; 80] ++ body) = len fs).
+  { remember (anmf_count ([82; 73; 70; 70; s0; s1; s2; s3; 87; 69; 66; 80] ++ body)) as K eqn:Hcount.
+    unfold anmf_count in Hcount.
     change ([82; 73; 70; 70; s0; s1; s2; s3; 87; 69; 66; 80] ++ body) with
       (82 :: 73 :: 70 :: 70 :: s0 :: s1 :: s2 :: s3 :: 87 :: 69 :: 66 :: 80 :: body) in Hcount.
     cbn [riff_chunks] in Hcount.
@@ -981,18 +1005,33 @@ Proof.
     unfold len in *. rewrite map_length in Hcount. exact Hcount. }
   assert (Hne : fs <> []).
   { intros ->. cbn in Hn0. discriminate. }
-  assert (Hareaw : cw * ch < MaxImageArea).
-  { unfold g_canvas_area in Harea. rewrite Eb1 in Harea. unfold chunk, le32 in Harea. cbn [app skipn] in Harea.
-    rewrite <- Hpay in Harea. cbn [app] in Harea. exact Harea. }
+  assert (Hareaw : g_canvas_area ([82; 73; 70; 70; s0; s1; s2; s3; 87; 69; 66; 80] ++ body) = cw * ch).
+  { unfold g_canvas_area. rewrite Eb1. unfold chunk, le32. cbn [app skipn].
+    rewrite <- Hpay. cbn [app]. reflexivity. }
   assert (Hficc : Z.testbit flags 5 = is_some icc) by (rewrite G5; symmetry; exact Hicc).
   assert (Hanimt : Z.testbit flags 1 = true) by (rewrite G1; exact Hbit).
   assert (Hsize : 4 + len (anim_body flags cw ch icc B0' B1' B2' B3' B4' B5' fs exif xmp) <= 4294967286)
     by (rewrite <- Ebody; lia).
   assert (Htailb : bytes_ok (anim_tail exif xmp)) by (unfold anim_tail; exact Hrb4).
-  destruct (views_agree_anim_shape fx flags cw ch icc B0' B1' B2' B3' B4' B5' fs exif xmp
-              Hf64 Hland Hanimt Hficc Hcwr Hchr Hareaw Hfs Hne Hcnt Hcicc Hcexif Hcxmp Hsize Htailb)
+  exists flags, cw, ch, icc, B0', B1', B2', B3', B4', B5', fs, exif, xmp.
+  split; [unfold anim_file; rewrite <- Ebody; exact Hfile|].
+  split; [exact Hf64|]. split; [exact Hland|]. split; [exact Hanimt|]. split; [exact Hficc|].
+  split; [exact Hcwr|]. split; [exact Hchr|]. split; [exact Hfs|]. split; [exact Hne|].
+  split; [exact Hcicc|]. split; [exact Hcexif|]. split; [exact Hcxmp|]. split; [exact Hsize|].
+  split; [exact Htailb|]. split; [exact Hareaw|exact Hcnt].
+Qed.
+
+Theorem views_agree_anim : views_agree_anim_statement.
+Proof.
+  intros fx file Hg Han Hlen Harea Hcount.
+  destruct (g_anim_decompose file Hg Han Hlen) as
+    (flags & cw & ch & icc & b0 & b1 & b2 & b3 & b4 & b5 & fs & exif & xmp & -> & Hf64 & Hland & Hanimt & Hficc &
+     Hcwr & Hchr & Hfs & Hne & Hcicc & Hcexif & Hcxmp & Hsize & Htailb & Earea & Ecnt).
+  rewrite Earea in Harea. rewrite Ecnt in Hcount.
+  destruct (views_agree_anim_shape fx flags cw ch icc b0 b1 b2 b3 b4 b5 fs exif xmp
+              Hf64 Hland Hanimt Hficc Hcwr Hchr Harea Hfs Hne Hcount Hcicc Hcexif Hcxmp Hsize Htailb)
     as (r & d & Ep & Ed & Hagree & Hlenf & Hrest').
-  exists r, d. unfold anim_file in Ep, Ed. rewrite <- Ebody in Ep, Ed. rewrite <- Hfile in Ep, Ed.
+  exists r, d.
   split; [exact Ep|]. split; [exact Ed|]. split; [exact Hagree|].
   split; [rewrite Hlenf; destruct fs; [contradiction|cbn; lia]|exact Hrest'].
 Qed.
